@@ -69,14 +69,37 @@ fn table() -> Vec<Entry> {
     v.extend(entries4!("<", ' ', Align::Left));
     v.extend(entries4!("^", ' ', Align::Center));
     v.extend(entries4!(">", ' ', Align::Right));
+    // explicit fill characters (incl. '0', a digit, the sign characters, a multi-byte one) with every alignment
     v.extend(entries4!("*<", '*', Align::Left));
     v.extend(entries4!("*^", '*', Align::Center));
     v.extend(entries4!("*>", '*', Align::Right));
+    v.extend(entries4!("_<", '_', Align::Left));
     v.extend(entries4!("_^", '_', Align::Center));
+    v.extend(entries4!("_>", '_', Align::Right));
+    v.extend(entries4!("#<", '#', Align::Left));
+    v.extend(entries4!("#^", '#', Align::Center));
     v.extend(entries4!("#>", '#', Align::Right));
     v.extend(entries4!("0<", '0', Align::Left));
+    v.extend(entries4!("0^", '0', Align::Center));
+    v.extend(entries4!("0>", '0', Align::Right));
+    v.extend(entries4!("é<", 'é', Align::Left));
     v.extend(entries4!("é^", 'é', Align::Center));
+    v.extend(entries4!("é>", 'é', Align::Right));
     v.extend(entries4!("-<", '-', Align::Left));
+    v.extend(entries4!("-^", '-', Align::Center));
+    v.extend(entries4!("->", '-', Align::Right));
+    v.extend(entries4!("+<", '+', Align::Left));
+    v.extend(entries4!("+^", '+', Align::Center));
+    v.extend(entries4!("+>", '+', Align::Right));
+    v.extend(entries4!("1<", '1', Align::Left));
+    v.extend(entries4!("1^", '1', Align::Center));
+    v.extend(entries4!("1>", '1', Align::Right));
+    v.extend(entries4!(".<", '.', Align::Left));
+    v.extend(entries4!(".^", '.', Align::Center));
+    v.extend(entries4!(".>", '.', Align::Right));
+    v.extend(entries4!("x<", 'x', Align::Left));
+    v.extend(entries4!("x^", 'x', Align::Center));
+    v.extend(entries4!("x>", 'x', Align::Right));
     v
 }
 
@@ -84,7 +107,7 @@ thread_local! {
     static TABLE: Vec<Entry> = table();
 }
 
-const N_FLAGS: usize = 48;
+const N_FLAGS: usize = 4 * (4 + 10 * 3);
 
 /// decimals weighted to carries (..9.99..), ties at the cut, negative values rounding to zero
 fn fmt_decimal() -> BoxedStrategy<D> {
@@ -114,7 +137,7 @@ impl Prop for C11 {
         "C11"
     }
     fn rule(&self) -> String {
-        "Generated: (Decimal, thread-default mode, flag set, width, precision): 48 static flag sets = {none,<,^,>,*<,*^,*>,_^,#>,0<,é^,-<} x {'+' on/off} x {'0' on/off}, each stamped as format!(\"{:..w$.p$}\") closures with width absent or 0..=60 and precision absent or 0..=40; \
+        "Generated: (Decimal, thread-default mode, flag set, width, precision): 136 static flag sets = ({none,<,^,>} + {fill in * _ # 0 é - + 1 . x} x {<,^,>}) x {'+' on/off} x {'0' on/off}, each stamped as format!(\"{:..w$.p$}\") closures with width absent or 0..=60 and precision absent or 0..=40; \
          decimals weighted to carries (all nines), ties at the cut, small negative values that round to zero. \
          Oracle: value rounded once to min(P,18) digits by the mode definitions, digits from big-integer printing, sign from d, padding by a model of Formatter::pad_integral which is itself checked on every case against std's formatting of the i128 coefficient with the same flags. \
          Non-trivial: precision present and different from the scale, or width larger than the body. Distinct: hash of the case."
